@@ -561,8 +561,9 @@ def extract():
     if not x0_sites:
         raise TranslatorError("no construction of an optimiser found (Optimizer / InitialGuessOptimizer)")
 
+    nested = nested_defaults()
     algos, hourly = defaults_by_introspection()
-    return {"files": files, "sites": sites, "uses": uses, "assigns": assigns, "x0_sites": x0_sites,
+    return {"nested": nested, "files": files, "sites": sites, "uses": uses, "assigns": assigns, "x0_sites": x0_sites,
             "bindings": [{"func": f, "param": p, "args": a} for (f, p), a in sorted(bindings.items())],
             "mdefaults": mdefaults, "algorithms": algos, "hourly": hourly}
 
@@ -640,6 +641,46 @@ def mutable_default(mod, fn, param, pos, calls_of):
             explicit += 1
     return {"file": mod.rel, "func": mod.qual(fn) + "." + fn.name if mod.qual(fn) != "<module>" else fn.name, "param": param,
             "pydantic": False, "usage": usage, "calls": len(calls), "explicit": explicit, "line": fn.lineno}
+
+
+NESTED_MODULES = ["opendsm.eemeter.models.hourly.settings", "opendsm.eemeter.models.daily.utilities.settings",
+                  "opendsm.eemeter.models.billing.settings"]
+
+
+def nested_defaults():
+    """every field of a settings class whose default is itself a settings object: is that object made per instance
+    (default_factory, or a default that pydantic copies) or is ONE instance shared by all settings objects
+    (default=X() of a frozen, hence hashable, model is not copied)?  Decided by introspection AND by building two objects."""
+    import pydantic
+    out = []
+    for mn in NESTED_MODULES:
+        try:
+            m = importlib.import_module(mn)
+        except Exception as e:  # noqa
+            raise TranslatorError("settings module %s does not import: %r" % (mn, e))
+        for name, cls in sorted(vars(m).items()):
+            if not (isinstance(cls, type) and issubclass(cls, pydantic.BaseModel) and cls.__module__ == m.__name__):
+                continue
+            for fname, f in cls.model_fields.items():
+                has_factory = f.default_factory is not None
+                try:
+                    a = f.get_default(call_default_factory=True)
+                except Exception as e:  # noqa
+                    raise TranslatorError("%s.%s: default cannot be evaluated: %r" % (name, fname, e))
+                if not isinstance(a, pydantic.BaseModel):
+                    continue
+                # what two real objects get
+                try:
+                    x, y = cls(), cls()
+                    shared = getattr(x, fname) is getattr(y, fname)
+                except Exception:  # noqa  (a class that cannot be built without arguments: compare the raw defaults)
+                    b = f.get_default(call_default_factory=True)
+                    shared = a is b
+                kind = "NdShared" if shared else ("NdFactory" if has_factory else "NdCopied")
+                out.append({"cls": name, "field": fname, "kind": kind})
+    if not any(n["field"] in ("elasticnet", "temporal_cluster") for n in out):
+        raise TranslatorError("the nested hourly settings fields (elasticnet, temporal_cluster) were not found")
+    return out
 
 
 def defaults_by_introspection():
@@ -725,6 +766,9 @@ def render(ex):
         "  {| m_file := %s; m_func := %s; m_param := %s; m_pydantic := %s; m_usage := %s; m_calls := %d; m_explicit := %d |}" % (
             q(m["file"]), q(m["func"]), q(m["param"]), "true" if m["pydantic"] else "false", m["usage"], m["calls"], m["explicit"])
         for m in ex["mdefaults"]))
+    L.append("].\n")
+    L.append("Definition nested_defaults : list (string * string * ndkind) := [")
+    L.append(";\n".join("  (%s, %s, %s)" % (q(n["cls"]), q(n["field"]), n["kind"]) for n in ex["nested"]))
     L.append("].\n")
     L.append("Definition x0_sites : list (string * string * string * x0kind) := [")
     L.append(";\n".join("  (%s, %s, %s, %s)" % (q(x["file"]), q(x["func"]), q(x["callee"]), x["kind"]) for x in ex["x0_sites"]))
